@@ -5,15 +5,17 @@
 set -u
 prop="$1"; src="$2"; name="$3"; tier="${4:-quick}"; cprop=${prop:0:3}
 export GOFLAGS=-mod=mod GOPROXY=off GOSUMDB=off GOTOOLCHAIN=local
-cd /repo; git diff --quiet || { echo "repo dirty"; exit 3; }
+R=${EVAL_REPO:-/tmp/evalrepo}   # a private worktree of /repo: /repo itself is never touched
+export VERIF_REPO=$R VERIF_DIR=/tmp/evalverif; mkdir -p $VERIF_DIR; cp /verif/known_findings.json $VERIF_DIR/
+cd $R; git checkout -q -- . ; git clean -fdq
 dst=/verif/seeded/$name; mkdir -p $dst; cp $src/patch.diff $src/meta.json $dst/ 2>/dev/null; for d in $src/demo*; do cp "$d" "$dst/$(basename $d).txt" 2>/dev/null; done
 demo=$(ls $src/demo_test.go 2>/dev/null)
 place=$(grep -o -m1 '[a-zA-Z0-9_/.]*zz_demo[a-z0-9_]*_test.go' $src/demo_test.go | head -1)
 [ -z "$place" ] && place=zz_demo_test.go
 place=${place#/tmp/wt/$prop/}; place=${place#<repo>/}
-pkgdir=$(dirname "$place"); pkgdir=${pkgdir#/}; pkgdir=${pkgdir#/}; [ -z "$pkgdir" ] && pkgdir=.; [ -d /repo/$pkgdir ] || pkgdir=.
-run_demo() { cp $src/demo_test.go /repo/$pkgdir/zz_demo_test.go; (cd /repo && go test -count=1 -run 'TestDemo' ./$pkgdir 2>&1 | tail -3); r=${PIPESTATUS[0]}; rm -f /repo/$pkgdir/zz_demo_test.go; return $r; }
-echo "== clean tree: demo"; (cd /repo && cp $src/demo_test.go $pkgdir/zz_demo_test.go && go test -count=1 -run 'TestDemo' ./$pkgdir >/tmp/demo_clean.log 2>&1; echo "demo-clean-exit=$?"; rm -f $pkgdir/zz_demo_test.go) | tee $dst/ran.txt
+pkgdir=$(dirname "$place"); pkgdir=${pkgdir#/}; pkgdir=${pkgdir#/}; [ -z "$pkgdir" ] && pkgdir=.; [ -d $R/$pkgdir ] || pkgdir=.
+run_demo() { cp $src/demo_test.go $R/$pkgdir/zz_demo_test.go; (cd $R && go test -count=1 -run 'TestDemo' ./$pkgdir 2>&1 | tail -3); r=${PIPESTATUS[0]}; rm -f $R/$pkgdir/zz_demo_test.go; return $r; }
+echo "== clean tree: demo"; (cd $R && cp $src/demo_test.go $pkgdir/zz_demo_test.go && go test -count=1 -run 'TestDemo' ./$pkgdir >/tmp/demo_clean.log 2>&1; echo "demo-clean-exit=$?"; rm -f $pkgdir/zz_demo_test.go) | tee $dst/ran.txt
 git apply $src/patch.diff || { echo "patch does not apply"; git checkout -- .; exit 3; }
 echo "== patched: build+suite" | tee -a $dst/ran.txt
 (go build ./... && go test -count=1 ./... 2>&1 | grep -v "^ok\|no test files" | head -5; echo "suite-fail-lines-above(if any)") | tee -a $dst/ran.txt
@@ -22,5 +24,5 @@ cd /verif
 out=$(./check $cprop $tier 2>&1); code=$?
 echo "check $cprop $tier exit=$code" | tee -a $dst/ran.txt
 echo "$out" | grep "^VIOLATION\|class=" | head -6 | tee -a $dst/ran.txt
-git -C /repo checkout -- . ; git -C /repo clean -fdq
+git -C $R checkout -- . ; git -C $R clean -fdq
 echo "== restored"
